@@ -376,11 +376,11 @@ Definition g_methods : table := [
   ("Generator.Filter", []);
   (* generator.go:99 *)
   ("Generator.AsAny", []);
-  (* combinators.go:288 *)
+  (* combinators.go:289 *)
   ("asAnyGen.String", [
     IAcc F_asAnyGen_gen false;
     ICall "fmt.Sprintf"]);
-  (* combinators.go:292 *)
+  (* combinators.go:293 *)
   ("asAnyGen.value", [
     IAcc F_asAnyGen_gen false;
     IAcc F_pkg_anyRuneGen false;
@@ -415,12 +415,12 @@ Definition g_methods : table := [
     IAcc F_customGen_fn false;
     ICall "g.fn";
     ICall "t.failOnError";
-    ICall "t.Failed";
-    ICall "t.cleanup"]);
-  (* combinators.go:74 *)
+    ICall "t.cleanup";
+    ICall "t.Failed"]);
+  (* combinators.go:75 *)
   ("deferredGen.String", [
     ICall "fmt.Sprintf"]);
-  (* combinators.go:79 *)
+  (* combinators.go:80 *)
   ("deferredGen.value", [
     IOnce O_deferredGen_once [
       IAcc F_deferredGen_fn false;
@@ -429,11 +429,11 @@ Definition g_methods : table := [
     IAcc F_deferredGen_g false;
     IAcc F_pkg_anyRuneGen false;
     ICall "g.g.value"]);
-  (* combinators.go:98 *)
+  (* combinators.go:99 *)
   ("filteredGen.String", [
     IAcc F_filteredGen_g false;
     ICall "fmt.Sprintf"]);
-  (* combinators.go:102 *)
+  (* combinators.go:103 *)
   ("filteredGen.value", [
     IAcc F_filteredGen_g false;
     IAcc F_pkg_anyRuneGen false;
@@ -575,45 +575,45 @@ Definition g_methods : table := [
     IAcc F_mapGen_keyFn false;
     ICall "g.keyFn";
     ICall "repeat.reject"]);
-  (* combinators.go:142 *)
+  (* combinators.go:143 *)
   ("mappedGen.String", [
     IAcc F_mappedGen_g false;
     IAcc F_mappedGen_fn false;
     ICall "fmt.Sprintf"]);
-  (* combinators.go:146 *)
+  (* combinators.go:147 *)
   ("mappedGen.value", [
     IAcc F_mappedGen_g false;
     IAcc F_pkg_anyRuneGen false;
     ICall "g.g.value";
     IAcc F_mappedGen_fn false;
     ICall "g.fn"]);
-  (* combinators.go:232 *)
+  (* combinators.go:233 *)
   ("oneOfGen.String", [
     IAcc F_oneOfGen_gens false;
     IAcc F_oneOfGen_gens false;
     ICall "g.String";
     ICall "strings.Join";
     ICall "fmt.Sprintf"]);
-  (* combinators.go:241 *)
+  (* combinators.go:242 *)
   ("oneOfGen.value", [
     IAcc F_oneOfGen_gens false;
     IAcc F_oneOfGen_gens false;
     IAcc F_pkg_anyRuneGen false;
     ICall "g.gens.value"]);
-  (* combinators.go:195 *)
+  (* combinators.go:196 *)
   ("permGen.String", [
     IAcc F_permGen_slice false;
     ICall "fmt.Sprintf"]);
-  (* combinators.go:200 *)
+  (* combinators.go:201 *)
   ("permGen.value", [
     IAcc F_permGen_slice false;
     ICall "repeat.more"]);
-  (* combinators.go:260 *)
+  (* combinators.go:261 *)
   ("ptrGen.String", [
     IAcc F_ptrGen_elem false;
     IAcc F_ptrGen_allowNil false;
     ICall "fmt.Sprintf"]);
-  (* combinators.go:264 *)
+  (* combinators.go:265 *)
   ("ptrGen.value", [
     IAcc F_ptrGen_allowNil false;
     IAcc F_ptrGen_elem false;
@@ -702,7 +702,7 @@ Definition g_methods : table := [
     IAcc F_runeGen_runes false;
     IAcc F_runeGen_tables false;
     IAcc F_runeGen_tables false]);
-  (* combinators.go:170 *)
+  (* combinators.go:171 *)
   ("sampledGen.String", [
     IAcc F_sampledGen_slice false;
     IAcc F_sampledGen_slice false;
@@ -710,7 +710,7 @@ Definition g_methods : table := [
     IAcc F_sampledGen_slice false;
     IAcc F_sampledGen_slice false;
     ICall "fmt.Sprintf"]);
-  (* combinators.go:178 *)
+  (* combinators.go:179 *)
   ("sampledGen.value", [
     IAcc F_sampledGen_slice false;
     IAcc F_sampledGen_slice false]);
